@@ -51,7 +51,7 @@ def _decode_start_tc(value: typing.Optional[str]) -> typing.Optional[str]:
   if value.upper() == "TCP":
     return "TCP"
 
-  if _SMPTE_TIME_CODE_DF_PATTERN.match(value) or _SMPTE_TIME_CODE_NDF_PATTERN.match(value):
+  if _SMPTE_TIME_CODE_DF_PATTERN.fullmatch(value) or _SMPTE_TIME_CODE_NDF_PATTERN.fullmatch(value):
     return value
 
   raise ValueError(f"Invalid start_tc '{value}' value. Expect: 'TCP' or 'HH:MM:SS:FF'.")
